@@ -131,13 +131,17 @@ def run(ctx):
     acfg = A.cfg(ca)
     vraise = [n for n in acfg.nodes if n.kind == "raise" and isinstance(n.stmt.exc, ast.Call)
               and dotted(n.stmt.exc.func) == "ValueError"]
-    conds = set()
-    for n in vraise:
-        for e, p, _ in acfg.guards(n):
-            conds.add((norm_stmt(e).replace(" ", ""), p))
-    diag = ("cpunotinall_cpus", True) in conds and ("cpunotineligible_cpus", True) in conds \
-        and any(c[0].startswith("isinstance(err,ValueError)orerr.errno==errno.EINVAL") and c[1]
-                for c in conds)
+    # facts, not spellings: a ValueError is raised under `cpu not in all_cpus`, another
+    # under `cpu not in eligible_cpus`, both only when the failure was EINVAL/ValueError
+    fsets = [set(facts(acfg, n)) for n in vraise]
+    def einval(fs):
+        # the diagnosis branch: not (err is neither a ValueError nor EINVAL)
+        return not (("isinstance", "err", "ValueError", False) in fs
+                    and ("eq", "err.errno", "errno.EINVAL", False) in fs) and any(
+            f[0] in ("isinstance", "eq") and "err" in f[1] or f[0] == "expr" and "err" in f[1]
+            for f in fs)
+    diag = any(("in", "cpu", "all_cpus", False) in fs and einval(fs) for fs in fsets) \
+        and any(("in", "cpu", "eligible_cpus", False) in fs and einval(fs) for fs in fsets)
     last_reraise = any(n.kind == "raise" and n.stmt.exc is None for n in acfg.nodes)
     if diag and last_reraise:
         ctx.ok("C18.R1", "affinity:diagnosis", sample="EINVAL/ValueError -> ValueError naming the "
